@@ -1,105 +1,116 @@
-import MJ.Model.SafeProg
-import MJ.Proofs.SafeInv
-/-! C02, stage "programs": the strict interpreter only ever runs fragment steps, hence preserves the
-machine invariant. -/
+import MJ.Proofs.SafeFrag
+/-! C02, stage "programs": one induction over the interpreter for both modes of operation.  The guarded
+interpreter (`strict = true`) refuses the steps that are not allowed; the unguarded one is run on
+programs of the syntactic fragment (`OkS`, `ProgOk`), where those steps do not occur.  Either way
+every step taken is one of `StepRel`, hence the flagged machine invariant is preserved. -/
 namespace MJ.Safe
 
-/-- a computation that maps invariant states to invariant states -/
-def Pres {α : Type} (m : M α) : Prop := ∀ st a st', StInv st → m st = some (a, st') → StInv st'
+/-! ### primitives -/
 
-theorem Pres.pure {α : Type} (a : α) : Pres (Pure.pure a : M α) := by
-  intro st a' st' h hr
-  simp only [Pure.pure, M.pure, Option.some.injEq, Prod.mk.injEq] at hr
-  obtain ⟨_, rfl⟩ := hr; exact h
-
-theorem Pres.fail {α : Type} : Pres (failM : M α) := by
-  intro st a st' _ hr; simp [failM] at hr
-
-theorem Pres.bind {α β : Type} {m : M α} {f : α → M β} (hm : Pres m) (hf : ∀ a, Pres (f a)) :
-    Pres (m >>= f) := by
-  intro st b st' h hr
-  simp only [Bind.bind, M.bind] at hr
+theorem fmtPreF_inv : InvPreserving fmtPreF := by
+  intro args r hargs hr
+  unfold fmtPreF at hr
   split at hr
+  · cases hr; exact inv_undef
+  · cases hr; exact hargs _ (by simp)
   · cases hr
-  · rename_i a st1 h1
-    exact hf a st1 b st' (hm st a st1 h h1) hr
 
-theorem Pres.stepM {s : Step} (hs : StepOk s) : Pres (stepM s) := by
-  intro st a st' h hr
-  simp only [Safe.stepM, Option.map_eq_some_iff, Prod.mk.injEq] at hr
-  obtain ⟨st1, h1, _, rfl⟩ := hr
-  exact step_preserves_inv s st st1 hs h h1
+theorem moduleObjF_inv : InvPreserving moduleObjF := by
+  intro args r _ hr
+  unfold moduleObjF at hr
+  split at hr
+  · cases hr; exact inv_obj _
+  · cases hr
 
-theorem Pres.pushM {s : Step} (hs : StepOk s) : Pres (pushM s) := by
-  intro st a st' h hr
-  simp only [Safe.pushM, Option.map_eq_some_iff, Prod.mk.injEq] at hr
-  obtain ⟨st1, h1, _, rfl⟩ := hr
-  exact step_preserves_inv s st st1 hs h h1
+theorem writable_rel {strict : Bool} {env : Env} {fl : List Bool} (hEnv : EnvInv strict env fl) (hw : env.writable = true) :
+    env.mode = .html ∨ (env.mode = .none ∧ ∃ r, fl = false :: r) := by
+  unfold Env.writable at hw
+  simp only [Bool.or_eq_true, Bool.and_eq_true, beq_iff_eq] at hw
+  rcases hw with h | ⟨h, ho⟩
+  · exact Or.inl h
+  · exact Or.inr ⟨h, hEnv.sink ho⟩
 
-theorem Pres.readM (i : Nat) : Pres (readM i) := by
-  intro st a st' h hr
-  simp only [Safe.readM, Option.map_eq_some_iff, Prod.mk.injEq] at hr
-  obtain ⟨_, _, _, rfl⟩ := hr
-  exact h
+theorem allows_writable {env : Env} (h : allows env.mode env.opaq) : env.writable = true := by
+  unfold Env.writable
+  rcases h with h | ⟨h, ho⟩
+  · simp [h]
+  · simp [h, ho]
 
-theorem Pres.ite {α : Type} {c : Prop} [Decidable c] {a b : M α} (ha : Pres a) (hb : Pres b) :
-    Pres (if c then a else b) := by
-  split
-  · exact ha
-  · exact hb
-
-theorem Pres.emitG (env : Env) (r : Nat) : Pres (emitG true env r) := by
+theorem HT.emitG {strict : Bool} {env : Env} {fl : List Bool} (hEnv : EnvInv strict env fl)
+    (hw : strict = false → allows env.mode env.opaq) (r : Nat) : HT fl fl (Safe.emitG strict env r) := by
   unfold Safe.emitG
   split
-  · exact Pres.fail
-  · rename_i hc
-    apply Pres.stepM
-    have : env.mode = .html := by
-      cases hm : env.mode <;> simp [hm] at hc ⊢
-    simp only [StepOk, this]
+  · exact HT.fail
+  · rename_i hg
+    have hwr : env.writable = true := by
+      cases strict with
+      | false => exact allows_writable (hw rfl)
+      | true => simpa using hg
+    have hrel := writable_rel hEnv hwr
+    split
+    · exact HT.stepM ⟨rfl, hrel⟩
+    · exact HT.bind (HT.pushM ⟨rfl, fmtPreF_inv⟩) fun _ => HT.stepM ⟨rfl, hrel⟩
 
-theorem Pres.applyG {env : Env} {g : Fn} {ok : Bool} (rs : List Nat)
-    (hg : ok = true → env.mode = .html → InvPreserving g) : Pres (applyG true env g ok rs) := by
+theorem HT.applyG {strict : Bool} {env : Env} {g : Fn} {ok : Bool} {fl : List Bool} (rs : List Nat)
+    (hg : ok = true → InvPreserving g) (hok : strict = false → ok = true) : HT fl fl (Safe.applyG strict env g ok rs) := by
   unfold Safe.applyG
   split
-  · exact Pres.fail
+  · exact HT.fail
   · rename_i hc
-    apply Pres.pushM
-    have hm : env.mode = .html := by
-      cases hm : env.mode <;> simp [hm] at hc ⊢
-    have hok : ok = true := by
-      cases ok <;> simp at hc ⊢
-    exact hg hok hm
+    have : ok = true := by
+      cases strict with
+      | false => exact hok rfl
+      | true =>
+        cases ok with
+        | true => rfl
+        | false => simp at hc
+    exact HT.pushM ⟨rfl, hg this⟩
 
-theorem Pres.applyNamed (env : Env) (name : String) (ps rs : List Nat) :
-    Pres (applyNamed true env name ps rs) := by
+theorem HT.applyNamed {strict : Bool} {env : Env} {fl : List Bool} (hEnv : EnvInv strict env fl) {name : String}
+    {ps : List Nat} (hf : strict = false → FilterOk name ps) (rs : List Nat) :
+    HT fl fl (Safe.applyNamed strict env name ps rs) := by
   unfold Safe.applyNamed
   split
-  · exact Pres.fail
+  · exact HT.fail
   · rename_i g ok hl
-    apply Pres.applyG
-    intro hok hm
-    subst hok
-    rw [hm] at hl
-    exact named_models_preserve_inv_map name ps g hl
+    refine HT.applyG rs ?_ ?_
+    · intro hok; subst hok
+      exact named_models_preserve_inv_mode env.mode hEnv.mode name ps g hl
+    · intro hs
+      exact hf hs env.mode g ok hl
 
-theorem Pres.bindParams : ∀ (ps : List String) (rs : List Nat), Pres (bindParams ps rs) := by
+theorem HT.bindParams {fl : List Bool} : ∀ (ps : List String) (rs : List Nat), HT fl fl (bindParams ps rs) := by
   intro ps
   induction ps with
   | nil =>
     intro rs
     cases rs with
-    | nil => simp only [Safe.bindParams]; exact Pres.pure _
-    | cons r rs => simp only [Safe.bindParams]; exact Pres.fail
+    | nil => simp only [Safe.bindParams]; exact HT.pure _
+    | cons r rs => simp only [Safe.bindParams]; exact HT.fail
   | cons p ps ih =>
     intro rs
     cases rs with
     | nil =>
       simp only [Safe.bindParams]
-      refine Pres.bind (Pres.pushM (by trivial)) fun r => Pres.bind (ih []) fun rest => Pres.pure _
+      exact HT.bind (HT.pushM (by simp only [StepRel])) fun r => HT.bind (ih []) fun rest => HT.pure _
     | cons r rs =>
       simp only [Safe.bindParams]
-      exact Pres.bind (ih rs) fun rest => Pres.pure _
+      exact HT.bind (ih rs) fun rest => HT.pure _
+
+theorem HT.bindImported {fl : List Bool} (p : Prog) (tn : String) (ex : List (String × Nat)) :
+    ∀ ns : List (String × String), HT fl fl (bindImported p tn ex ns) := by
+  intro ns
+  induction ns with
+  | nil => simp only [Safe.bindImported]; exact HT.pure _
+  | cons na rest ih =>
+    obtain ⟨n, a⟩ := na
+    simp only [Safe.bindImported]
+    refine HT.bind ih fun more => ?_
+    split
+    · exact HT.pure _
+    · split
+      · exact HT.pure _
+      · exact HT.bind (HT.pushM (by simp only [StepRel])) fun r => HT.pure _
 
 mutual
 theorem CV.toV_inv : ∀ cv : CV, cv.toV.Inv
@@ -120,102 +131,804 @@ theorem CV.toVM_inv : ∀ kvs : List (String × CV), V.InvM (CV.toVM kvs)
   | (k, v) :: kvs => by simp only [CV.toVM, V.InvM]; exact ⟨CV.toV_inv v, CV.toVM_inv kvs⟩
 end
 
-theorem Pres.pushCtx : ∀ ctx : List (String × CV), Pres (pushCtx ctx) := by
+theorem HT.pushCtx {fl : List Bool} : ∀ ctx : List (String × CV), HT fl fl (pushCtx ctx) := by
   intro ctx
   induction ctx with
-  | nil => simp only [Safe.pushCtx]; exact Pres.pure _
+  | nil => simp only [Safe.pushCtx]; exact HT.pure _
   | cons p rest ih =>
     obtain ⟨n, cv⟩ := p
     simp only [Safe.pushCtx]
-    exact Pres.bind (Pres.pushM (CV.toV_inv cv)) fun r => Pres.bind ih fun more => Pres.pure _
+    exact HT.bind (HT.pushM ⟨rfl, CV.toV_inv cv⟩) fun r => HT.bind ih fun more => HT.pure _
 
+/-! ### environments -/
 
-theorem Pres.apply {α : Type} {m : M α} (h : Pres m) {st st' : St} {a : α} (hs : StInv st)
-    (hr : m st = some (a, st')) : StInv st' := h st a st' hs hr
+theorem none_caller_poly {p : Prog} : ∀ c, (Option.none : Option CallerCl) = some c → Poly p c.body := by
+  intro c h; cases h
+theorem none_rec_poly {p : Prog} : ∀ v b, (Option.none : Option (String × List Stmt)) = some (v, b) → Poly p b := by
+  intro v b h; cases h
+theorem nil_supers_ok {p : Prog} : ∀ b ∈ ([] : List (List Stmt)), OkSs p .html false b := by
+  intro b h; cases h
+theorem nil_chains_ok {p : Prog} : ∀ n bs, ([] : List (String × List (List Stmt))).lookup n = some bs →
+    ∀ b ∈ bs, OkSs p .html false b := by
+  intro n bs h; simp [List.lookup] at h
 
-attribute [irreducible] Pres
+/-- only `mode`, `initMode`, `opaq`, `prog`, `caller`, `recLoop`, `supers`, `chains` matter -/
+theorem EnvInv.congr {strict : Bool} {env env' : Env} {fl : List Bool} (h : EnvInv strict env fl)
+    (h1 : env'.mode = env.mode) (h2 : env'.initMode = env.initMode) (h3 : env'.opaq = env.opaq) (h4 : env'.prog = env.prog)
+    (h5 : env'.caller = env.caller) (h6 : env'.recLoop = env.recLoop) (h7 : env'.supers = env.supers)
+    (h8 : env'.chains = env.chains) : EnvInv strict env' fl := by
+  refine ⟨by rw [h1]; exact h.mode, by rw [h2]; exact h.init, by rw [h3]; exact h.sink, fun hs => ?_⟩
+  have f := h.frag hs
+  exact ⟨by rw [h4]; exact f.prog, by rw [h4, h5]; exact f.caller, by rw [h4, h6]; exact f.recLoop,
+    by rw [h4, h7]; exact f.supers, by rw [h4, h8]; exact f.chains⟩
 
-set_option hygiene false in
-/-- discharge `Pres` goals of the interpreter clauses: sequencing, guarded primitives, recursive calls -/
-macro "pres" : tactic => `(tactic| repeat' (first
-  | with_reducible exact Pres.pure _
-  | with_reducible exact Pres.fail
-  | with_reducible exact Pres.readM _
-  | with_reducible exact Pres.emitG _ _
-  | with_reducible exact Pres.applyNamed _ _ _ _
-  | with_reducible exact Pres.bindParams _ _
-  | with_reducible exact Pres.applyG _ (fun _ _ => concatF_inv)
-  | with_reducible exact Pres.applyG _ (fun _ _ => addF_inv)
-  | with_reducible exact Pres.applyG _ (fun _ _ => repeatF_inv _)
-  | with_reducible exact Pres.applyG _ (fun _ _ => elemF_inv _)
-  | with_reducible exact Pres.applyG _ (fun _ _ => sliceF_inv _ _)
-  | with_reducible exact Pres.applyG _ (fun _ _ => attrF_inv _)
-  | with_reducible exact Pres.applyG _ (fun _ _ => charsF_inv)
-  | exact Pres.stepM (by simp only [StepOk])
-  | exact Pres.pushM (by simp only [StepOk])
-  | with_reducible exact ihE _ _
-  | with_reducible exact ihA _ _
-  | with_reducible exact ihK _ _
-  | with_reducible exact ihF _ _ _ _ _ _
-  | with_reducible exact ihSS _ _
-  | with_reducible exact ihS _ _
-  | with_reducible apply Pres.bind
-  | with_reducible apply Pres.ite
-  | intro _
-  | split))
+/-- flag of a capture begun in mode `m` -/
+abbrev capFlag (m : Mode) : Bool := m == .html
 
-/-- all six interpreter functions preserve the machine invariant in strict mode -/
-theorem exec_pres : ∀ fuel : Nat,
-    (∀ env e, Pres (evalExpr true fuel env e)) ∧
-    (∀ env es, Pres (evalArgs true fuel env es)) ∧
-    (∀ env kvs, Pres (evalKVs true fuel env kvs)) ∧
-    (∀ env v body r k n, Pres (forLoop true fuel env v body r k n)) ∧
-    (∀ env ss, Pres (execStmts true fuel env ss)) ∧
-    (∀ env s, Pres (execStmt true fuel env s)) := by
+theorem capFlag_end {m : Mode} (hm : m ≠ .json) : m ≠ .none → capFlag m = true := by
+  intro h; cases m <;> simp_all [capFlag]
+
+theorem capFlag_sink {m : Mode} {fl : List Bool} : (m != .html) = true → ∃ r, capFlag m :: fl = false :: r := by
+  intro h
+  refine ⟨fl, ?_⟩
+  cases m <;> simp_all [capFlag]
+
+/-- inside a capture begun here (set-block, filter-block, `loop(…)`) -/
+theorem EnvInv.inCapture {strict : Bool} {env : Env} {fl : List Bool} (h : EnvInv strict env fl) :
+    EnvInv strict env.inCapture (capFlag env.mode :: fl) :=
+  ⟨h.mode, h.init, capFlag_sink, fun hs => let f := h.frag hs; ⟨f.prog, f.caller, f.recLoop, f.supers, f.chains⟩⟩
+
+theorem EnvInv.forSuper {strict : Bool} {env : Env} {fl : List Bool} (h : EnvInv strict env fl) {rest : List (List Stmt)}
+    (hr : strict = false → ∀ b ∈ rest, OkSs env.prog .html false b) :
+    EnvInv strict (env.forSuper rest) (capFlag env.mode :: fl) :=
+  ⟨h.mode, h.mode, capFlag_sink, fun hs => let f := h.frag hs;
+    ⟨f.prog, f.caller, none_rec_poly, hr hs, f.chains⟩⟩
+
+theorem EnvInv.forMacro {strict : Bool} {env : Env} {fl : List Bool} (h : EnvInv strict env fl) (home : Tmpl)
+    (params : List (String × Nat)) (caller : Option CallerCl)
+    (hc : strict = false → ∀ c, caller = some c → Poly env.prog c.body) :
+    EnvInv strict (env.forMacro home params caller) (capFlag env.mode :: fl) :=
+  ⟨h.mode, h.mode, capFlag_sink, fun hs => let f := h.frag hs;
+    ⟨f.prog, hc hs, none_rec_poly, nil_supers_ok, f.chains⟩⟩
+
+theorem EnvInv.forCaller {strict : Bool} {env : Env} {fl : List Bool} (h : EnvInv strict env fl) (c : CallerCl) :
+    EnvInv strict (env.forCaller c) (capFlag env.mode :: fl) :=
+  ⟨h.mode, h.mode, capFlag_sink, fun hs => let f := h.frag hs;
+    ⟨f.prog, none_caller_poly, none_rec_poly, nil_supers_ok, f.chains⟩⟩
+
+theorem EnvInv.withRec {strict : Bool} {env : Env} {fl : List Bool} (h : EnvInv strict env fl) (r : Bool) (v : String)
+    {body : List Stmt} (hb : strict = false → r = true → Poly env.prog body) :
+    EnvInv strict { env with recLoop := if r then some (v, body) else Option.none } fl := by
+  refine ⟨h.mode, h.init, h.sink, fun hs => ?_⟩
+  have f := h.frag hs
+  refine ⟨f.prog, f.caller, ?_, f.supers, f.chains⟩
+  intro v' body' heq
+  cases r
+  · simp at heq
+  · simp only [if_true, Option.some.injEq, Prod.mk.injEq] at heq
+    obtain ⟨_, rfl⟩ := heq; exact hb hs rfl
+
+theorem EnvInv.forBlock {strict : Bool} {env : Env} {fl : List Bool} (h : EnvInv strict env fl) {rest : List (List Stmt)}
+    (hr : strict = false → ∀ b ∈ rest, OkSs env.prog .html false b) :
+    EnvInv strict { env with supers := rest, initMode := env.mode, loopIdx := Option.none, recLoop := Option.none } fl :=
+  ⟨h.mode, h.mode, h.sink, fun hs => let f := h.frag hs;
+    ⟨f.prog, f.caller, none_rec_poly, hr hs, f.chains⟩⟩
+
+theorem EnvInv.withMode {strict : Bool} {env : Env} {fl : List Bool} (h : EnvInv strict env fl) {m : Mode} (hm : m ≠ .json) :
+    EnvInv strict { env with mode := m } fl :=
+  ⟨hm, h.init, h.sink, fun hs => let f := h.frag hs; ⟨f.prog, f.caller, f.recLoop, f.supers, f.chains⟩⟩
+
+/-- the environment an included template is loaded into -/
+theorem EnvInv.forInclude {strict : Bool} {env : Env} {fl : List Bool} (h : EnvInv strict env fl) :
+    EnvInv strict { env with loopIdx := Option.none, recLoop := Option.none, caller := Option.none, supers := [], chains := [], skipBlocks := false } fl :=
+  ⟨h.mode, h.init, h.sink, fun hs => let f := h.frag hs;
+    ⟨f.prog, none_caller_poly, none_rec_poly, nil_supers_ok, nil_chains_ok⟩⟩
+
+/-- the environment an imported template is loaded into: inside the (unflagged) module capture -/
+theorem EnvInv.forImport {strict : Bool} {env : Env} {fl : List Bool} (h : EnvInv strict env fl) :
+    EnvInv strict { env with opaq := true, loopIdx := Option.none, recLoop := Option.none, caller := Option.none, supers := [], chains := [], skipBlocks := false }
+      (false :: fl) :=
+  ⟨h.mode, h.init, fun _ => ⟨fl, rfl⟩, fun hs => let f := h.frag hs;
+    ⟨f.prog, none_caller_poly, none_rec_poly, nil_supers_ok, nil_chains_ok⟩⟩
+
+/-- the top level of a template in mode `m` -/
+theorem EnvInv.forTop {strict : Bool} {env : Env} {fl : List Bool} (h : EnvInv strict env fl) {m : Mode} (hm : m ≠ .json)
+    (ms mds : List (String × String)) :
+    EnvInv strict { env with mode := m, initMode := m, macros := ms, mods := mds } fl :=
+  ⟨hm, hm, h.sink, fun hs => let f := h.frag hs; ⟨f.prog, f.caller, f.recLoop, f.supers, f.chains⟩⟩
+
+theorem blockBodies_frag {env : Env} (f : EnvFrag env) {name : String} {dflt b : List Stmt} {rest : List (List Stmt)}
+    (hd : OkSs env.prog .html false dflt) (heq : (env.chains.lookup name).getD [dflt] = b :: rest) :
+    OkSs env.prog .html false b ∧ ∀ x ∈ rest, OkSs env.prog .html false x := by
+  cases hl : env.chains.lookup name with
+  | none =>
+    rw [hl] at heq
+    simp only [Option.getD_none, List.cons.injEq] at heq
+    obtain ⟨rfl, rfl⟩ := heq
+    exact ⟨hd, by intro x hx; cases hx⟩
+  | some bs =>
+    rw [hl] at heq
+    simp only [Option.getD_some] at heq
+    have := f.chains name bs hl
+    subst heq
+    exact ⟨this b List.mem_cons_self, fun x hx => this x (List.mem_cons_of_mem _ hx)⟩
+
+/-- what `runTop` needs from the fragment for a template found by name, in the mode its name selects and
+    with the current target -/
+theorem tmplOk_run {p : Prog} {t : Tmpl} (h : TmplOk p t) {k : Bool} (ha : allows (modeOf p t.name) k) :
+    modeOf p t.name ≠ .json ∧ OkSs p (modeOf p t.name) k t.pre ∧ OkSs p (modeOf p t.name) k t.body := by
+  obtain ⟨hj, hpre, hbody, _⟩ := h
+  refine ⟨hj, ?_, ?_⟩
+  · rcases ha with hm | ⟨hm, rfl⟩
+    · rw [hm] at hpre ⊢; exact OkSs.anySink hpre k
+    · rw [hm] at hpre ⊢; exact hpre
+  · rcases ha with hm | ⟨hm, rfl⟩
+    · rw [hm] at hbody ⊢; exact OkSs.anySink hbody k
+    · rw [hm] at hbody ⊢; exact hbody
+
+/-! ### the interpreter -/
+
+attribute [local irreducible] HT
+
+/-- the nine interpreter functions preserve the flagged machine invariant: always when guarded, on
+    code of the fragment when unguarded -/
+theorem exec_ht (strict : Bool) : ∀ fuel : Nat,
+    (∀ env e fl, EnvInv strict env fl → (strict = false → OkE env.mode e) → HT fl fl (evalExpr strict fuel env e)) ∧
+    (∀ env g args caller fl, EnvInv strict env fl →
+        (strict = false → OkEs env.mode args ∧ ∀ c, caller = some c → Poly env.prog c.body) →
+        HT fl fl (callMacro strict fuel env g args caller)) ∧
+    (∀ env es fl, EnvInv strict env fl → (strict = false → OkEs env.mode es) → HT fl fl (evalArgs strict fuel env es)) ∧
+    (∀ env kvs fl, EnvInv strict env fl → (strict = false → OkKs env.mode kvs) → HT fl fl (evalKVs strict fuel env kvs)) ∧
+    (∀ env v body r k n fl, EnvInv strict env fl → (strict = false → OkSs env.prog env.mode env.opaq body) →
+        HT fl fl (forLoop strict fuel env v body r k n)) ∧
+    (∀ env ss fl, EnvInv strict env fl → (strict = false → OkSs env.prog env.mode env.opaq ss) →
+        HT fl fl (execStmts strict fuel env ss)) ∧
+    (∀ env s fl, EnvInv strict env fl → (strict = false → OkS env.prog env.mode env.opaq s) →
+        HT fl fl (execStmt strict fuel env s)) ∧
+    (∀ env t m fl, EnvInv strict env fl →
+        (strict = false → m ≠ .json ∧ OkSs env.prog m env.opaq t.pre ∧ OkSs env.prog m env.opaq t.body) →
+        HT fl fl (runTop strict fuel env t m)) ∧
+    (∀ env ds fl, EnvInv strict env fl → HT fl fl (loadImports strict fuel env ds)) := by
   intro fuel
   induction fuel with
   | zero =>
-    refine ⟨?_, ?_, ?_, ?_, ?_, ?_⟩
-    · intro env e; simp only [evalExpr]; exact Pres.fail
-    · intro env es; simp only [evalArgs]; exact Pres.fail
-    · intro env kvs; simp only [evalKVs]; exact Pres.fail
-    · intro env v body r k n; simp only [forLoop]; exact Pres.fail
-    · intro env ss; simp only [execStmts]; exact Pres.fail
-    · intro env s; simp only [execStmt]; exact Pres.fail
+    refine ⟨?_, ?_, ?_, ?_, ?_, ?_, ?_, ?_, ?_⟩
+    · intro env e fl _ _; simp only [evalExpr]; exact HT.fail
+    · intro env g args caller fl _ _; simp only [callMacro]; exact HT.fail
+    · intro env es fl _ _; simp only [evalArgs]; exact HT.fail
+    · intro env kvs fl _ _; simp only [evalKVs]; exact HT.fail
+    · intro env v body r k n fl _ _; simp only [forLoop]; exact HT.fail
+    · intro env ss fl _ _; simp only [execStmts]; exact HT.fail
+    · intro env s fl _ _; simp only [execStmt]; exact HT.fail
+    · intro env t m fl _ _; simp only [runTop]; exact HT.fail
+    · intro env ds fl _; simp only [loadImports]; exact HT.fail
   | succ fuel ih =>
-    obtain ⟨ihE, ihA, ihK, ihF, ihSS, ihS⟩ := ih
-    refine ⟨?_, ?_, ?_, ?_, ?_, ?_⟩
-    · intro env e
-      cases e <;> simp only [evalExpr] <;> pres
-    · intro env es
-      cases es <;> simp only [evalArgs] <;> pres
-    · intro env kvs
+    obtain ⟨ihE, ihC, ihA, ihK, ihF, ihSS, ihS, ihT, ihI⟩ := ih
+    refine ⟨?_, ?_, ?_, ?_, ?_, ?_, ?_, ?_, ?_⟩
+    -- evalExpr
+    · intro env e fl hEnv hE
+      cases e with
+      | var n =>
+        simp only [evalExpr]
+        split
+        · exact HT.pure _
+        · exact HT.pushM (by simp only [StepRel])
+      | lit s => simp only [evalExpr]; exact HT.pushM (by simp only [StepRel])
+      | int n => simp only [evalExpr]; exact HT.pushM (by simp only [StepRel])
+      | bool b => simp only [evalExpr]; exact HT.pushM (by simp only [StepRel])
+      | none => simp only [evalExpr]; exact HT.pushM (by simp only [StepRel])
+      | cat a b =>
+        simp only [evalExpr]
+        have ha : strict = false → OkE env.mode a := fun hs => by cases hE hs with | cat h1 h2 => exact h1
+        have hb : strict = false → OkE env.mode b := fun hs => by cases hE hs with | cat h1 h2 => exact h2
+        exact HT.bind (ihE _ _ _ hEnv ha) fun _ => HT.bind (ihE _ _ _ hEnv hb) fun _ =>
+          HT.applyG _ (fun _ => concatF_inv) (fun _ => rfl)
+      | add a b =>
+        simp only [evalExpr]
+        have ha : strict = false → OkE env.mode a := fun hs => by cases hE hs with | add h1 h2 => exact h1
+        have hb : strict = false → OkE env.mode b := fun hs => by cases hE hs with | add h1 h2 => exact h2
+        exact HT.bind (ihE _ _ _ hEnv ha) fun _ => HT.bind (ihE _ _ _ hEnv hb) fun _ =>
+          HT.applyG _ (fun _ => addF_inv) (fun _ => rfl)
+      | mul a n =>
+        simp only [evalExpr]
+        have ha : strict = false → OkE env.mode a := fun hs => by cases hE hs with | mul _ h1 => exact h1
+        exact HT.bind (ihE _ _ _ hEnv ha) fun _ => HT.applyG _ (fun _ => repeatF_inv _) (fun _ => rfl)
+      | filt name ps args =>
+        simp only [evalExpr]
+        have ha : strict = false → OkEs env.mode args := fun hs => by cases hE hs with | filt _ h1 => exact h1
+        have hf : strict = false → FilterOk name ps := fun hs => by cases hE hs with | filt h0 _ => exact h0
+        exact HT.bind (ihA _ _ _ hEnv ha) fun _ => HT.applyNamed hEnv hf _
+      | meth name ps args =>
+        simp only [evalExpr]
+        have ha : strict = false → OkEs env.mode args := fun hs => by cases hE hs with | meth _ h1 => exact h1
+        have hf : strict = false → ∀ k ∈ ["str", "dict", "list"], FilterOk (k ++ "." ++ name) ps := fun hs => by cases hE hs with | meth h0 _ => exact h0
+        refine HT.bind (ihA _ _ _ hEnv ha) fun rs => ?_
+        split
+        · exact HT.fail
+        · refine HT.bind (HT.readM _) fun v => ?_
+          split
+          · exact HT.fail
+          · rename_i k hk
+            exact HT.applyNamed hEnv (fun hs => hf hs k (methodKind_mem hk)) _
+      | index a k =>
+        simp only [evalExpr]
+        have ha : strict = false → OkE env.mode a := fun hs => by cases hE hs with | index _ h1 => exact h1
+        exact HT.bind (ihE _ _ _ hEnv ha) fun _ => HT.applyG _ (fun _ => elemF_inv _) (fun _ => rfl)
+      | slice a x y =>
+        simp only [evalExpr]
+        have ha : strict = false → OkE env.mode a := fun hs => by cases hE hs with | slice _ _ h1 => exact h1
+        exact HT.bind (ihE _ _ _ hEnv ha) fun _ => HT.applyG _ (fun _ => sliceF_inv _ _) (fun _ => rfl)
+      | attr a key =>
+        simp only [evalExpr]
+        have ha : strict = false → OkE env.mode a := fun hs => by cases hE hs with | attr _ h1 => exact h1
+        exact HT.bind (ihE _ _ _ hEnv ha) fun _ => HT.applyG _ (fun _ => attrF_inv _) (fun _ => rfl)
+      | list xs =>
+        simp only [evalExpr]
+        have ha : strict = false → OkEs env.mode xs := fun hs => by cases hE hs with | list h1 => exact h1
+        exact HT.bind (ihA _ _ _ hEnv ha) fun _ => HT.pushM (by simp only [StepRel])
+      | dict kvs =>
+        simp only [evalExpr]
+        have ha : strict = false → OkKs env.mode kvs := fun hs => by cases hE hs with | dict h1 => exact h1
+        exact HT.bind (ihK _ _ _ hEnv ha) fun _ => HT.pushM (by simp only [StepRel])
+      | call g args =>
+        simp only [evalExpr]
+        split
+        · exact HT.fail
+        · refine ihC _ _ _ _ _ hEnv fun hs => ⟨by cases hE hs with | call _ h1 => exact h1, by intro c hc; cases hc⟩
+      | modCall a g args =>
+        simp only [evalExpr]
+        split
+        · exact HT.fail
+        · split
+          · refine ihC _ _ _ _ _ hEnv fun hs => ⟨by cases hE hs with | modCall _ _ h1 => exact h1, by intro c hc; cases hc⟩
+          · exact HT.fail
+      | modVar a x =>
+        simp only [evalExpr]
+        split
+        · exact HT.fail
+        · split
+          · exact HT.pure _
+          · exact HT.pushM (by simp only [StepRel])
+      | caller =>
+        simp only [evalExpr]
+        split
+        · exact HT.fail
+        · rename_i c hc
+          have hb : strict = false → OkSs (env.forCaller c).prog (env.forCaller c).mode (env.forCaller c).opaq c.body :=
+            fun hs => ((hEnv.frag hs).caller c hc).inCapture hEnv.mode
+          exact HT.bind (fl1 := capFlag env.mode :: fl) (HT.stepM ⟨_, rfl⟩) fun _ =>
+            HT.bind (ihSS _ _ _ (hEnv.forCaller c) hb) fun _ => HT.pushM ⟨_, rfl, capFlag_end hEnv.mode⟩
+      | super =>
+        simp only [evalExpr]
+        split
+        · exact HT.fail
+        · rename_i b rest hsup
+          have hmode : strict = false → env.mode = .html := fun hs => by cases hE hs with | super h => exact h
+          have hrest : strict = false → ∀ x ∈ rest, OkSs env.prog .html false x := fun hs x hx =>
+            (hEnv.frag hs).supers x (by rw [hsup]; exact List.mem_cons_of_mem _ hx)
+          refine HT.bind (fl1 := capFlag env.mode :: fl) (HT.stepM ⟨_, rfl⟩) fun _ =>
+            HT.bind (ihSS _ _ _ (hEnv.forSuper hrest) ?_) fun _ => HT.pushM ⟨_, rfl, capFlag_end hEnv.mode⟩
+          intro hs
+          have hb : OkSs env.prog .html false b := (hEnv.frag hs).supers b (by rw [hsup]; exact List.mem_cons_self)
+          show OkSs env.prog env.mode (env.mode != .html) b
+          rw [hmode hs]; exact hb
+      | loopRec e =>
+        simp only [evalExpr]
+        split
+        · exact HT.fail
+        · rename_i v body hrl
+          have he : strict = false → OkE env.mode e := fun hs => by cases hE hs with | loopRec h1 => exact h1
+          have hb : strict = false → OkSs env.inCapture.prog env.inCapture.mode env.inCapture.opaq body :=
+            fun hs => ((hEnv.frag hs).recLoop v body hrl).inCapture hEnv.mode
+          exact HT.bind (ihE _ _ _ hEnv he) fun _ =>
+            HT.bind (fl1 := capFlag env.mode :: fl) (HT.stepM ⟨_, rfl⟩) fun _ =>
+            HT.bind (HT.applyG _ (fun _ => charsF_inv) (fun _ => rfl)) fun _ => HT.bind (HT.readM _) fun _ =>
+            HT.bind (ihF _ _ _ _ _ _ _ hEnv.inCapture hb) fun _ => HT.pushM ⟨_, rfl, capFlag_end hEnv.mode⟩
+      | loopIndex =>
+        simp only [evalExpr]
+        split
+        · exact HT.pushM (by simp only [StepRel])
+        · exact HT.fail
+      | loopFirst =>
+        simp only [evalExpr]
+        split
+        · exact HT.pushM (by simp only [StepRel])
+        · exact HT.fail
+      | not e =>
+        simp only [evalExpr]
+        have he : strict = false → OkE env.mode e := fun hs => by cases hE hs with | not h1 => exact h1
+        exact HT.bind (ihE _ _ _ hEnv he) fun _ => HT.bind (HT.readM _) fun _ => HT.pushM (by simp only [StepRel])
+      | cond c a b =>
+        simp only [evalExpr]
+        have hc : strict = false → OkE env.mode c := fun hs => by cases hE hs with | cond h1 _ _ => exact h1
+        have ha : strict = false → OkE env.mode a := fun hs => by cases hE hs with | cond _ h1 _ => exact h1
+        have hb : strict = false → OkE env.mode b := fun hs => by cases hE hs with | cond _ _ h1 => exact h1
+        exact HT.bind (ihE _ _ _ hEnv hc) fun _ => HT.bind (HT.readM _) fun _ =>
+          HT.ite (ihE _ _ _ hEnv ha) (ihE _ _ _ hEnv hb)
+    -- callMacro
+    · intro env g args caller fl hEnv hP
+      simp only [callMacro]
+      split
+      · exact HT.fail
+      · rename_i home md hfm
+        have hb : strict = false → OkSs (env.forMacro home [] caller).prog env.mode (env.mode != .html) md.body := fun hs => by
+          obtain ⟨hh, hm⟩ := findMacro_mem hfm
+          exact (((hEnv.frag hs).prog home hh).2.2.2 md hm).inCapture hEnv.mode
+        refine HT.bind (ihA _ _ _ hEnv fun hs => (hP hs).1) fun rs => HT.bind (HT.bindParams _ _) fun params =>
+          HT.bind (fl1 := capFlag env.mode :: fl) (HT.stepM ⟨_, rfl⟩) fun _ =>
+          HT.bind (ihSS _ _ _ (hEnv.forMacro home params caller fun hs => (hP hs).2) hb) fun _ =>
+          HT.pushM ⟨_, rfl, capFlag_end hEnv.mode⟩
+    -- evalArgs
+    · intro env es fl hEnv hP
+      cases es with
+      | nil => simp only [evalArgs]; exact HT.pure _
+      | cons e es =>
+        simp only [evalArgs]
+        have h1 : strict = false → OkE env.mode e := fun hs => by cases hP hs with | cons a b => exact a
+        have h2 : strict = false → OkEs env.mode es := fun hs => by cases hP hs with | cons a b => exact b
+        exact HT.bind (ihE _ _ _ hEnv h1) fun _ => HT.bind (ihA _ _ _ hEnv h2) fun _ => HT.pure _
+    -- evalKVs
+    · intro env kvs fl hEnv hP
       cases kvs with
-      | nil => simp only [evalKVs]; pres
-      | cons kv kvs => obtain ⟨k, e⟩ := kv; simp only [evalKVs]; pres
-    · intro env v body r k n
-      simp only [forLoop]; pres
-    · intro env ss
-      cases ss <;> simp only [execStmts] <;> pres
-    · intro env s
-      cases s <;> simp only [execStmt] <;> pres
+      | nil => simp only [evalKVs]; exact HT.pure _
+      | cons kv kvs =>
+        obtain ⟨k, e⟩ := kv
+        simp only [evalKVs]
+        have h1 : strict = false → OkE env.mode e := fun hs => by cases hP hs with | cons a b => exact a
+        have h2 : strict = false → OkKs env.mode kvs := fun hs => by cases hP hs with | cons a b => exact b
+        exact HT.bind (ihE _ _ _ hEnv h1) fun _ => HT.bind (ihK _ _ _ hEnv h2) fun _ => HT.pure _
+    -- forLoop
+    · intro env v body r k n fl hEnv hP
+      simp only [forLoop]
+      refine HT.ite ?_ (HT.pure _)
+      exact HT.bind (HT.applyG _ (fun _ => elemF_inv _) (fun _ => rfl)) fun rk =>
+        HT.bind (ihSS _ _ _ (hEnv.congr rfl rfl rfl rfl rfl rfl rfl rfl) hP) fun _ => ihF _ _ _ _ _ _ _ hEnv hP
+    -- execStmts
+    · intro env ss fl hEnv hP
+      cases ss with
+      | nil => simp only [execStmts]; exact HT.pure _
+      | cons s ss =>
+        simp only [execStmts]
+        have h1 : strict = false → OkS env.prog env.mode env.opaq s := fun hs => by cases hP hs with | cons a b => exact a
+        have h2 : strict = false → OkSs env.prog env.mode env.opaq ss := fun hs => by cases hP hs with | cons a b => exact b
+        exact HT.bind (ihS _ _ _ hEnv h1) fun vars => ihSS _ _ _ (hEnv.congr rfl rfl rfl rfl rfl rfl rfl rfl) h2
+    -- execStmt
+    · intro env s fl hEnv hP
+      cases s with
+      | text t =>
+        simp only [execStmt]
+        exact HT.bind (HT.stepM (by simp only [StepRel])) fun _ => HT.pure _
+      | emit e =>
+        simp only [execStmt]
+        have he : strict = false → OkE env.mode e := fun hs => by cases hP hs with | emit _ h1 => exact h1
+        have hw : strict = false → allows env.mode env.opaq := fun hs => by cases hP hs with | emit h0 _ => exact h0
+        exact HT.bind (ihE _ _ _ hEnv he) fun _ => HT.bind (HT.emitG hEnv hw _) fun _ => HT.pure _
+      | set n e =>
+        simp only [execStmt]
+        have he : strict = false → OkE env.mode e := fun hs => by cases hP hs with | set _ h1 => exact h1
+        exact HT.bind (ihE _ _ _ hEnv he) fun _ => HT.pure _
+      | setBlock n filt body =>
+        simp only [execStmt]
+        have hb : strict = false → OkSs env.inCapture.prog env.inCapture.mode env.inCapture.opaq body := fun hs => by
+          cases hP hs with
+          | setBlock _ h1 => exact h1
+          | setBlockF _ _ h1 => exact h1
+        refine HT.bind (fl1 := capFlag env.mode :: fl) (HT.stepM ⟨_, rfl⟩) fun _ =>
+          HT.bind (ihSS _ _ _ hEnv.inCapture hb) fun _ =>
+          HT.bind (fl1 := fl) (HT.pushM ⟨_, rfl, capFlag_end hEnv.mode⟩) fun r => ?_
+        split
+        · exact HT.pure _
+        · rename_i name ps
+          have hf : strict = false → FilterOk name ps := fun hs => by cases hP hs with | setBlockF _ h0 _ => exact h0
+          exact HT.bind (HT.applyNamed hEnv hf _) fun _ => HT.pure _
+      | filterBlock name ps body =>
+        simp only [execStmt]
+        have hb : strict = false → OkSs env.inCapture.prog env.inCapture.mode env.inCapture.opaq body := fun hs => by
+          cases hP hs with | filterBlock _ _ h1 => exact h1
+        have hf : strict = false → FilterOk name ps := fun hs => by cases hP hs with | filterBlock _ h0 _ => exact h0
+        have hw : strict = false → allows env.mode env.opaq := fun hs => by cases hP hs with | filterBlock h0 _ _ => exact h0
+        exact HT.bind (fl1 := capFlag env.mode :: fl) (HT.stepM ⟨_, rfl⟩) fun _ =>
+          HT.bind (ihSS _ _ _ hEnv.inCapture hb) fun _ =>
+          HT.bind (fl1 := fl) (HT.pushM ⟨_, rfl, capFlag_end hEnv.mode⟩) fun r =>
+          HT.bind (HT.applyNamed hEnv hf _) fun _ => HT.bind (HT.emitG hEnv hw _) fun _ => HT.pure _
+      | forIn v it recursive body els =>
+        simp only [execStmt]
+        have hi : strict = false → OkE env.mode it := fun hs => by
+          cases hP hs with
+          | forIn _ h1 _ _ => exact h1
+          | forRec _ h1 _ _ _ _ => exact h1
+        have hb : strict = false → OkSs env.prog env.mode env.opaq body := fun hs => by
+          cases hP hs with
+          | forIn _ _ h1 _ => exact h1
+          | forRec _ _ h1 _ _ _ => exact h1
+        have he : strict = false → OkSs env.prog env.mode env.opaq els := fun hs => by
+          cases hP hs with
+          | forIn _ _ _ h1 => exact h1
+          | forRec _ _ _ h1 _ _ => exact h1
+        have hp : strict = false → recursive = true → Poly env.prog body := fun hs hr => by
+          subst hr
+          cases hP hs with
+          | forRec _ _ _ _ h1 h2 => exact ⟨h1, h2⟩
+        refine HT.bind (ihE _ _ _ hEnv hi) fun _ => HT.bind (HT.applyG _ (fun _ => charsF_inv) (fun _ => rfl)) fun _ =>
+          HT.bind (HT.readM _) fun items => HT.ite ?_ ?_
+        · exact HT.bind (ihSS _ _ _ hEnv he) fun _ => HT.pure _
+        · exact HT.bind (ihF _ _ _ _ _ _ _ (hEnv.withRec recursive v hp) hb) fun _ => HT.pure _
+      | ifE c a b =>
+        simp only [execStmt]
+        have hc : strict = false → OkE env.mode c := fun hs => by cases hP hs with | ifE h1 _ _ => exact h1
+        have ha : strict = false → OkSs env.prog env.mode env.opaq a := fun hs => by cases hP hs with | ifE _ h1 _ => exact h1
+        have hb : strict = false → OkSs env.prog env.mode env.opaq b := fun hs => by cases hP hs with | ifE _ _ h1 => exact h1
+        exact HT.bind (ihE _ _ _ hEnv hc) fun _ => HT.bind (HT.readM _) fun _ =>
+          HT.ite (ihSS _ _ _ hEnv ha) (ihSS _ _ _ hEnv hb)
+      | withE n e body =>
+        simp only [execStmt]
+        have he : strict = false → OkE env.mode e := fun hs => by cases hP hs with | withE _ h1 _ => exact h1
+        have hb : strict = false → OkSs env.prog env.mode env.opaq body := fun hs => by cases hP hs with | withE _ _ h1 => exact h1
+        exact HT.bind (ihE _ _ _ hEnv he) fun _ =>
+          HT.bind (ihSS _ _ _ (hEnv.congr rfl rfl rfl rfl rfl rfl rfl rfl) hb) fun _ => HT.pure _
+      | callBlock g args body =>
+        simp only [execStmt]
+        split
+        · exact HT.fail
+        · have hw : strict = false → allows env.mode env.opaq := fun hs => by cases hP hs with | callBlock _ h0 _ _ _ => exact h0
+          refine HT.bind (ihC _ _ _ _ _ hEnv fun hs => ?_) fun _ => HT.bind (HT.emitG hEnv hw _) fun _ => HT.pure _
+          cases hP hs with
+          | callBlock _ _ h1 h2 h3 =>
+            refine ⟨h1, ?_⟩
+            intro c hc
+            simp only [Option.some.injEq] at hc
+            subst hc
+            exact ⟨h2, h3⟩
+      | incl name =>
+        simp only [execStmt]
+        split
+        · exact HT.fail
+        · rename_i t ht
+          refine HT.ite HT.fail (HT.bind (ihT _ _ _ _ hEnv.forInclude fun hs => ?_) fun _ => HT.pure _)
+          obtain ⟨hmem, hname⟩ := findTmpl_mem ht
+          have ha : allows (modeOf env.prog name) env.opaq := by cases hP hs with | incl _ h0 => exact h0
+          have := tmplOk_run ((hEnv.frag hs).prog t hmem) (k := env.opaq) (by rw [hname]; exact ha)
+          rw [hname] at this
+          exact this
+      | block name dflt =>
+        simp only [execStmt]
+        refine HT.ite (HT.pure _) ?_
+        split
+        · exact HT.pure _
+        · rename_i b rest heq
+          have hmode : strict = false → env.mode = .html := fun hs => by cases hP hs with | block _ h _ => exact h
+          have hbr : strict = false → OkSs env.prog .html false b ∧ ∀ x ∈ rest, OkSs env.prog .html false x := fun hs => by
+            refine blockBodies_frag (hEnv.frag hs) ?_ heq
+            cases hP hs with
+            | block _ _ h1 => exact h1
+          refine HT.bind (ihSS _ _ _ (hEnv.forBlock fun hs => (hbr hs).2) fun hs => ?_) fun _ => HT.pure _
+          show OkSs env.prog env.mode env.opaq b
+          rw [hmode hs]
+          exact OkSs.anySink (hbr hs).1 _
+      | auto a body =>
+        simp only [execStmt]
+        split
+        · exact HT.fail
+        · rename_i m hd
+          split
+          · exact HT.fail
+          · rename_i hg
+            have hmj : m ≠ .json := by
+              cases strict with
+              | true =>
+                intro hm; subst hm; simp at hg
+              | false =>
+                have := hP rfl
+                cases this with
+                | auto ha hb =>
+                  rename_i m'
+                  have := derive_autoMode ha hEnv.init hd
+                  subst this
+                  exact autoMode_not_json ha
+            refine ihSS _ _ _ (hEnv.withMode hmj) fun hs => ?_
+            cases hP hs with
+            | auto ha hb =>
+              have := derive_autoMode ha hEnv.init hd
+              subst this
+              exact hb
+    -- runTop
+    · intro env t m fl hEnv hP
+      simp only [runTop]
+      split
+      · exact HT.fail
+      · rename_i hg
+        have hmj : m ≠ .json := by
+          cases strict with
+          | true => intro hm; subst hm; simp at hg
+          | false => exact (hP rfl).1
+        have hE0 := hEnv.forTop hmj (scopeMacros env.prog t ++ env.macros) (scopeMods t.imports ++ env.mods)
+        refine HT.bind (ihI _ _ _ hE0) fun l1 =>
+          HT.bind (ihSS _ _ _ (hE0.congr rfl rfl rfl rfl rfl rfl rfl rfl) fun hs => (hP hs).2.1) fun vars2 =>
+          HT.bind (ihSS _ _ _ (hE0.congr rfl rfl rfl rfl rfl rfl rfl rfl) fun hs => (hP hs).2.2) fun vars3 => HT.pure _
+    -- loadImports
+    · intro env ds fl hEnv
+      cases ds with
+      | nil => simp only [loadImports]; exact HT.pure _
+      | cons d rest =>
+        simp only [loadImports]
+        split
+        · exact HT.fail
+        · rename_i t ht
+          refine HT.ite HT.fail ?_
+          have hrun : strict = false → modeOf env.prog t.name ≠ .json ∧ OkSs env.prog (modeOf env.prog t.name) true t.pre ∧
+              OkSs env.prog (modeOf env.prog t.name) true t.body := fun hs => by
+            obtain ⟨hmem, _⟩ := findTmpl_mem ht
+            have hok := (hEnv.frag hs).prog t hmem
+            refine tmplOk_run hok ?_
+            have hj := hok.1
+            cases hm : modeOf env.prog t.name with
+            | html => exact Or.inl rfl
+            | none => exact Or.inr ⟨rfl, rfl⟩
+            | json => exact absurd hm hj
+          have hname : t.name = d.tmpl := (findTmpl_mem ht).2
+          refine HT.bind (fl1 := false :: fl) (HT.stepM ⟨_, rfl⟩) fun _ =>
+            HT.bind (ihT _ _ _ _ hEnv.forImport fun hs => ?_) fun l =>
+            HT.bind (fl1 := fl) (HT.pushM ⟨_, rfl, fun h => absurd rfl h⟩) fun rc => ?_
+          · rw [← hname]; exact hrun hs
+          · split
+            · exact HT.bind (HT.pushM ⟨rfl, moduleObjF_inv⟩) fun ro => ihI _ _ _ (hEnv.congr rfl rfl rfl rfl rfl rfl rfl rfl)
+            · exact HT.bind (HT.bindImported _ _ _ _) fun bound => ihI _ _ _ (hEnv.congr rfl rfl rfl rfl rfl rfl rfl rfl)
 
+end MJ.Safe
 
-theorem Pres.execProgM (fuel : Nat) (p : Prog) (ctx : List (String × CV)) : Pres (execProgM true fuel p ctx) := by
-  obtain ⟨ihE, ihA, ihK, ihF, ihSS, ihS⟩ := exec_pres fuel
-  unfold Safe.execProgM
+namespace MJ.Safe
+
+/-! ### whole programs -/
+
+/-- a Hoare triple with a postcondition on the result -/
+def HTQ {α : Type} (fl fl' : List Bool) (m : M α) (Q : α → Prop) : Prop :=
+  ∀ st a st', StInvF fl st → m st = some (a, st') → StInvF fl' st' ∧ Q a
+
+theorem HTQ.of_HT {α : Type} {fl fl' : List Bool} {m : M α} (h : HT fl fl' m) : HTQ fl fl' m fun _ => True :=
+  fun st a st' hs hr => ⟨h st a st' hs hr, trivial⟩
+
+theorem HTQ.bind {α β : Type} {fl fl1 fl2 : List Bool} {m : M α} {f : α → M β} {Q : α → Prop} {R : β → Prop}
+    (hm : HTQ fl fl1 m Q) (hf : ∀ a, Q a → HTQ fl1 fl2 (f a) R) : HTQ fl fl2 (m >>= f) R := by
+  intro st b st' h hr
+  simp only [Bind.bind, M.bind] at hr
+  split at hr
+  · cases hr
+  · rename_i a st1 h1
+    obtain ⟨hs1, hq⟩ := hm st a st1 h h1
+    exact hf a hq st1 b st' hs1 hr
+
+theorem HTQ.pure {α : Type} {fl : List Bool} {Q : α → Prop} (a : α) (hq : Q a) : HTQ fl fl (Pure.pure a : M α) Q := by
+  intro st a' st' h hr
+  simp only [Pure.pure, M.pure, Option.some.injEq, Prod.mk.injEq] at hr
+  obtain ⟨rfl, rfl⟩ := hr; exact ⟨h, hq⟩
+
+theorem HTQ.fail {α : Type} {fl fl' : List Bool} {Q : α → Prop} : HTQ fl fl' (failM : M α) Q := by
+  intro st a st' _ hr; simp [failM] at hr
+
+theorem HTQ.ite {α : Type} {fl fl' : List Bool} {Q : α → Prop} {c : Prop} [Decidable c] {a b : M α}
+    (ha : HTQ fl fl' a Q) (hb : ¬ c → HTQ fl fl' b Q) : HTQ fl fl' (if c then a else b) Q := by
+  split
+  · exact ha
+  · rename_i h; exact hb h
+
+theorem lookup_some_mem {β : Type} {n : String} {l : List (String × β)} {v : β} (h : l.lookup n = some v) :
+    ∃ k, (k, v) ∈ l := by
+  induction l with
+  | nil => simp [List.lookup] at h
+  | cons p ps ih =>
+    obtain ⟨a, b⟩ := p
+    simp only [List.lookup] at h
+    split at h
+    · cases h; exact ⟨a, List.mem_cons_self⟩
+    · obtain ⟨k, hk⟩ := ih h; exact ⟨k, List.mem_cons_of_mem _ hk⟩
+
+def ChainsOk (p : Prog) (chains : List (String × List (List Stmt))) : Prop :=
+  ∀ entry ∈ chains, ∀ b ∈ entry.2, OkSs p .html false b
+
+theorem topBlocks_ok {p : Prog} : ∀ (ss : List Stmt), OkSs p .html false ss → ∀ nb ∈ topBlocks ss, OkSs p .html false nb.2 := by
+  intro ss
+  induction ss with
+  | nil => intro _ nb h; simp [topBlocks] at h
+  | cons s ss ih =>
+    intro hs nb h
+    cases hs with
+    | cons hs1 hss =>
+      cases hs1 with
+      | block name _ hb =>
+        simp only [topBlocks, List.mem_cons] at h
+        rcases h with rfl | h
+        · exact hb
+        · exact ih hss nb h
+      | _ => simp only [topBlocks] at h; exact ih hss nb h
+
+theorem addBlocks_ok {p : Prog} : ∀ (bs : List (String × List Stmt)) (chains : List (String × List (List Stmt))),
+    ChainsOk p chains → (∀ nb ∈ bs, OkSs p .html false nb.2) → ChainsOk p (addBlocks chains bs) := by
+  intro bs
+  induction bs with
+  | nil => intro chains hc _; simpa [addBlocks] using hc
+  | cons nb rest ih =>
+    intro chains hc hb
+    obtain ⟨n, b⟩ := nb
+    simp only [addBlocks]
+    apply ih _ _ (fun x hx => hb x (List.mem_cons_of_mem _ hx))
+    have hbok : OkSs p .html false b := hb (n, b) List.mem_cons_self
+    split
+    · rename_i bodies hl
+      obtain ⟨k, hk⟩ := lookup_some_mem hl
+      intro entry he x hx
+      rcases List.mem_cons.mp he with rfl | he
+      · rcases List.mem_append.mp hx with hx | hx
+        · exact hc _ hk x hx
+        · simp only [List.mem_singleton] at hx; subst hx; exact hbok
+      · exact hc entry (List.mem_filter.mp he).1 x hx
+    · intro entry he x hx
+      rcases List.mem_cons.mp he with rfl | he
+      · simp only [List.mem_singleton] at hx; subst hx; exact hbok
+      · exact hc entry he x hx
+
+theorem buildChains_ok {p : Prog} {ts : List Tmpl} (h : ∀ t ∈ ts, OkSs p .html false t.body) : ChainsOk p (buildChains ts) := by
+  unfold buildChains
+  have : ∀ (ts : List Tmpl) (acc : List (String × List (List Stmt))), ChainsOk p acc → (∀ t ∈ ts, OkSs p .html false t.body) →
+      ChainsOk p (ts.foldl (fun acc t => addBlocks acc (topBlocks t.body)) acc) := by
+    intro ts
+    induction ts with
+    | nil => intro acc ha _; simpa using ha
+    | cons t ts ih =>
+      intro acc ha ht
+      simp only [List.foldl_cons]
+      exact ih _ (addBlocks_ok _ _ ha (topBlocks_ok _ (ht t List.mem_cons_self))) (fun x hx => ht x (List.mem_cons_of_mem _ hx))
+  exact this ts [] (by intro e he; cases he) h
+
+/-- what the program-level entry points assume: the guarded interpreter, or a program of the fragment -/
+def Admitted (strict : Bool) (p : Prog) : Prop := strict = true ∨ ProgOk p
+
+theorem baseEnv_inv {strict : Bool} {p : Prog} (h : Admitted strict p) (hm : modeOf p p.main = .html) (globals : List (String × Nat)) :
+    EnvInv strict (baseEnv p globals (inheritChain p (p.templates.length + 1) p.main)) [] := by
+  refine ⟨by simp [baseEnv, hm], by simp [baseEnv, hm], by simp [baseEnv], fun hs => ?_⟩
+  have hp : ProgOk p := by
+    rcases h with h | h
+    · rw [h] at hs; cases hs
+    · exact h
+  refine ⟨hp.tmpls, none_caller_poly, none_rec_poly, nil_supers_ok, ?_⟩
+  intro n bs hl b hb
+  obtain ⟨k, hk⟩ := lookup_some_mem hl
+  exact buildChains_ok (fun t ht => (hp.chain t ht).2) _ hk b hb
+
+/-- what `runChainHeads` hands back: same mode, target, program, chains; still a good environment -/
+def SameFrame (strict : Bool) (env : Env) (fl : List Bool) (env' : Env) : Prop :=
+  EnvInv strict env' fl ∧ env'.mode = env.mode ∧ env'.opaq = env.opaq ∧ env'.prog = env.prog ∧ env'.chains = env.chains
+
+theorem HTQ.runChainHeads {strict : Bool} (fuel : Nat) : ∀ (ts : List Tmpl) (env : Env) (fl : List Bool), EnvInv strict env fl →
+    (strict = false → ∀ t ∈ ts, OkSs env.prog env.mode true t.pre ∧ OkSs env.prog env.mode true t.body) →
+    HTQ fl fl (runChainHeads strict fuel env ts) (SameFrame strict env fl) := by
+  intro ts
+  induction ts with
+  | nil =>
+    intro env fl hEnv _
+    simp only [Safe.runChainHeads]
+    exact HTQ.pure _ ⟨hEnv, rfl, rfl, rfl, rfl⟩
+  | cons t rest ih =>
+    intro env fl hEnv hP
+    simp only [Safe.runChainHeads]
+    have hE1 : EnvInv strict { env with opaq := true, skipBlocks := true } (false :: fl) :=
+      ⟨hEnv.mode, hEnv.init, fun _ => ⟨fl, rfl⟩, fun hs => let f := hEnv.frag hs; ⟨f.prog, f.caller, f.recLoop, f.supers, f.chains⟩⟩
+    have hT := (exec_ht strict fuel).2.2.2.2.2.2.2.1 { env with opaq := true, skipBlocks := true } t env.mode (false :: fl) hE1
+      (fun hs => ⟨hEnv.mode, (hP hs t List.mem_cons_self).1, (hP hs t List.mem_cons_self).2⟩)
+    refine HTQ.bind (fl1 := false :: fl) (HTQ.of_HT (HT.stepM ⟨_, rfl⟩)) fun _ _ =>
+      HTQ.bind (HTQ.of_HT hT) fun l _ =>
+      HTQ.bind (fl1 := fl) (HTQ.of_HT (HT.pushM ⟨_, rfl, fun h => absurd rfl h⟩)) fun _ _ => ?_
+    intro st a st' hs hr
+    obtain ⟨h1, h2, h3, h4, h5, h6⟩ := ih { env with vars := l.1, tvars := l.2, macros := scopeMacros env.prog t ++ env.macros, mods := scopeMods t.imports ++ env.mods } fl
+      (hEnv.congr rfl rfl rfl rfl rfl rfl rfl rfl) (fun hs t' ht' => hP hs t' (List.mem_cons_of_mem _ ht')) st a st' hs hr
+    exact ⟨h1, h2, h3, h4, h5, h6⟩
+
+theorem inheritChain_mem {p : Prog} : ∀ (fuel : Nat) (name : String), ∀ t ∈ inheritChain p fuel name, t ∈ p.templates := by
+  intro fuel
+  induction fuel with
+  | zero => intro name t h; simp [inheritChain] at h
+  | succ fuel ih =>
+    intro name t h
+    simp only [inheritChain] at h
+    split at h
+    · cases h
+    · rename_i t0 h0
+      have hm : t0 ∈ p.templates := (findTmpl_mem h0).1
+      split at h
+      · simp only [List.mem_singleton] at h; subst h; exact hm
+      · rcases List.mem_cons.mp h with rfl | h
+        · exact hm
+        · exact ih _ t h
+
+/-- `renderMainM`: the invariant is kept, and the scope it returns is good for the top-level target -/
+theorem HTQ.renderMainM {strict : Bool} (fuel : Nat) {p : Prog} (h : Admitted strict p) (ctx : List (String × CV)) :
+    HTQ [] [] (renderMainM strict fuel p ctx) fun env => EnvInv strict env [] ∧ env.mode = modeOf p p.main ∧ env.prog = p ∧ env.opaq = false := by
+  unfold Safe.renderMainM
   simp only
   split
-  · exact Pres.fail
-  · refine Pres.bind (Pres.pushCtx _) fun globals => ?_
-    pres
+  · exact HTQ.fail
+  · rename_i base hbase
+    have hmem : base ∈ inheritChain p (p.templates.length + 1) p.main := List.mem_of_getLast? hbase
+    refine HTQ.bind (HTQ.of_HT (HT.pushCtx _)) fun globals _ => ?_
+    have hmain : ¬ (strict && modeOf p p.main != .html) = true → modeOf p p.main = .html := by
+      intro hg
+      rcases h with h | h
+      · subst h
+        simpa using hg
+      · exact h.main
+    refine HTQ.ite HTQ.fail fun hg => ?_
+    have hm := hmain hg
+    have hE0 := baseEnv_inv h hm globals
+    have hbm : (baseEnv p globals (inheritChain p (p.templates.length + 1) p.main)).mode = .html := by simp [baseEnv, hm]
+    have hbp : (baseEnv p globals (inheritChain p (p.templates.length + 1) p.main)).prog = p := rfl
+    have hpo : strict = false → ProgOk p := fun hs => by
+      rcases h with h | h
+      · rw [h] at hs; cases hs
+      · exact h
+    refine HTQ.bind (HTQ.runChainHeads fuel _ _ [] hE0 fun hs t ht => ?_) fun env hq => ?_
+    · rw [hbm, hbp]
+      have := (hpo hs).chain t ((List.dropLast_sublist _).subset ht)
+      exact ⟨this.1.mono, this.2.mono⟩
+    · obtain ⟨hE1, hmode, hopq, hprog, _⟩ := hq
+      have hT := (exec_ht strict fuel).2.2.2.2.2.2.2.1 env base env.mode [] hE1 (fun hs => by
+        rw [hmode, hbm, hopq, hprog]
+        have := (hpo hs).chain base hmem
+        exact ⟨by simp, this.1, this.2⟩)
+      refine HTQ.bind (HTQ.of_HT hT) fun l _ => HTQ.pure _ ⟨hE1.congr rfl rfl rfl rfl rfl rfl rfl rfl, ?_, hprog, ?_⟩
+      · show env.mode = _
+        rw [hmode, hbm, hm]
+      · show env.opaq = false
+        rw [hopq]; rfl
 
-/-- a strict run of a whole program ends in a state satisfying the machine invariant -/
-theorem execProg_inv (p : Prog) (ctx : List (String × CV)) (st : St) (h : execProg true p ctx = some st) :
-    StInv st := by
-  unfold execProg at h
-  simp only [Option.map_eq_some_iff] at h
-  obtain ⟨⟨u, st1⟩, h1, rfl⟩ := h
-  exact (Pres.execProgM defaultFuel p ctx).apply stInv_init h1
+/-- a run of a whole program — guarded, or unguarded on a program of the fragment — ends in a state
+    satisfying the machine invariant -/
+theorem execProg_inv {strict : Bool} {p : Prog} (h : Admitted strict p) (ctx : List (String × CV)) (st : St)
+    (hr : execProg strict p ctx = some st) : StInvF [] st := by
+  unfold execProg execProgM at hr
+  simp only [Option.map_eq_some_iff] at hr
+  obtain ⟨⟨u, st1⟩, h1, rfl⟩ := hr
+  have := HTQ.bind (HTQ.renderMainM defaultFuel h ctx) (R := fun _ => True) fun env _ => HTQ.pure () trivial
+  exact (this {} u st1 stInvF_init h1).1
+
+/-- the same for `render_captured` + `render_block` -/
+theorem execBlock_inv {strict : Bool} {p : Prog} (h : Admitted strict p) (b : String) (ctx : List (String × CV)) (st : St)
+    (hr : execBlock strict p b ctx = some st) : StInvF [] st := by
+  have key : HTQ [] [] (execBlockM strict defaultFuel p b ctx) (fun _ => True) := by
+    unfold execBlockM
+    refine HTQ.bind (HTQ.renderMainM defaultFuel h ctx) fun env hq => ?_
+    obtain ⟨hE, hmode, hprog, hopq⟩ := hq
+    refine HTQ.ite HTQ.fail fun _ => ?_
+    have hS := (exec_ht strict defaultFuel).2.2.2.2.2.2.1 env (.block b []) [] hE (fun hs => by
+      have hm : env.mode = .html := by
+        rw [hmode]
+        rcases h with h | h
+        · rw [h] at hs; cases hs
+        · exact h.main
+      exact OkS.block b hm OkSs.nil)
+    exact HTQ.bind (HTQ.of_HT hS) fun _ _ => HTQ.pure () trivial
+  unfold execBlock at hr
+  simp only [Option.map_eq_some_iff] at hr
+  obtain ⟨⟨u, st1⟩, h1, rfl⟩ := hr
+  exact (key {} u st1 stInvF_init h1).1
+
+/-- `Expression::eval`: the value handed back satisfies the invariant -/
+theorem execExpr_inv {strict : Bool} {e : Expr} (h : strict = true ∨ OkE .none e) (ctx : List (String × CV)) (v : V) (st : St)
+    (hr : execExpr strict e ctx = some (v, st)) : v.Inv ∧ StInvF [] st := by
+  unfold execExpr at hr
+  split at hr
+  · rename_i r st1 h1
+    simp only [Option.map_eq_some_iff, Prod.mk.injEq] at hr
+    obtain ⟨v', hv, rfl, rfl⟩ := hr
+    unfold execExprM at h1
+    have hfinal : StInvF [] st1 := by
+      have := HT.bind (fl := []) (fl1 := []) (fl2 := []) (HT.pushCtx ctx) fun globals =>
+        (exec_ht strict defaultFuel).1 (exprEnv globals) e []
+          ⟨(by simp [exprEnv]), (by simp [exprEnv]), (by simp [exprEnv]), fun _ => ⟨(by intro t ht; cases ht), none_caller_poly, none_rec_poly, nil_supers_ok, nil_chains_ok⟩⟩
+          (fun hs => by
+            rcases h with h | h
+            · rw [h] at hs; cases hs
+            · exact h)
+      exact this.apply stInvF_init h1
+    exact ⟨hfinal.1 v' (pool_mem hv), hfinal⟩
+  · cases hr
 
 end MJ.Safe
